@@ -211,26 +211,42 @@ let run_pie_case (idx : int) (toks : string list) (fuel : nat) (with_dump : bool
        let (_, w') = dsl_run_step !tb fuel !w (HEnv rs) in w := w'
      | "S" | "Z" ->   (* "Z": the implementation harness keeps using the Session after an abort; the model stops there *)
        let k = num t in
-       let sops = List.init k (fun _ -> match next t with
-           | "q" -> SRequire (n_of_int (num t))
-           | "b" -> let m = num t in SBottomUp (List.init m (fun _ -> n_of_int (num t)))
-           | "e" -> let _ = num t in let _ = num t in SBottomUp []     (* implementation-only cases: an external change inside a session; the model result of such a case is not compared *)
+       (* "e r v": an external change of a resource while the session is alive (Build.run_msession) *)
+       let mops = List.init k (fun _ -> match next t with
+           | "q" -> MSop (SRequire (n_of_int (num t)))
+           | "b" -> let m = num t in MSop (SBottomUp (List.init m (fun _ -> n_of_int (num t))))
+           | "e" -> let r = num t in let v = num t in MEdit (n_of_int r, Some (z_of_int v))
            | x -> failwith ("bad sop " ^ x)) in
+       let has_edit = List.exists (function MEdit _ -> true | _ -> false) mops in
+       let sops = List.filter_map (function MSop o -> Some o | MEdit _ -> None) mops in
        Printf.printf "S %d\n" !step;
-       let (rs, w') = dsl_run_step !tb fuel !w (HSession sops) in
+       let (rs, w') =
+         if has_edit then dsl_run_msession !tb fuel (new_session !w) mops
+         else dsl_run_step !tb fuel !w (HSession sops) in
        w := w';
-       List.iteri (fun i r ->
-           let sop = List.nth sops i in
-           let pre = match sop with SRequire tk -> "o q " ^ pn tk | SBottomUp _ -> "o b" in
-           match r with
-           | RDone (Some o) -> Printf.printf "%s -> %s\n" pre (pz o)
-           | RDone None -> Printf.printf "%s -> done\n" pre
-           | RAbort k -> Printf.printf "%s -> abort %s\n" pre (akind_text k)
-           | RFuel -> Printf.printf "%s -> FUEL\n" pre) rs;
+       (* results are printed per operation, an edit prints "o e -> done" like the harness (as long as the session goes on) *)
+       let rs = ref rs in
+       let stop = ref false in
+       List.iter (fun mo ->
+           if not !stop then
+           match mo with
+           | MEdit _ -> print_endline "o e -> done"
+           | MSop sop ->
+             (match !rs with
+              | [] -> stop := true
+              | r :: tl ->
+                rs := tl;
+                let pre = match sop with SRequire tk -> "o q " ^ pn tk | SBottomUp _ -> "o b" in
+                (match r with
+                 | RDone (Some o) -> Printf.printf "%s -> %s\n" pre (pz o)
+                 | RDone None -> Printf.printf "%s -> done\n" pre
+                 | RAbort k -> Printf.printf "%s -> abort %s\n" pre (akind_text k); stop := true
+                 | RFuel -> Printf.printf "%s -> FUEL\n" pre; stop := true))) mops;
        Printf.printf "e %s\n" (join " " (List.rev_map pz !w.errs));
        Printf.printf "v %s\n" (join ";" (List.rev_map event_text !w.trace));
        if with_dump then List.iter print_endline (dump !w);
-       let m = List.sort compare (List.map (fun (k, v) -> (int_of_n k, int_of_z v)) !w.rstate) in
+       (* resources with ids >= 50 live outside the Pie instance in the harness: its map dump does not show them *)
+       let m = List.sort compare (List.filter (fun (k, _) -> k < 50) (List.map (fun (k, v) -> (int_of_n k, int_of_z v)) !w.rstate)) in
        Printf.printf "m %s\n" (join " " (List.map (fun (k, v) -> Printf.sprintf "%d=%d" k v) m))
      | x -> failwith ("bad step " ^ x));
     incr step
